@@ -558,6 +558,64 @@ func TestVerifC30(t *testing.T) {
 	}
 	before := evals.Load()
 	runPart("st", stStor, stData, stWins)
+
+	// ---- part 3: the same functions inside RANGE queries ---------------------------------------
+	// A range query re-uses the sample (and start-timestamp) buffers of a series from step to step.
+	// With step >= range consecutive windows share no sample, with step < range they overlap: every
+	// step must equal the instant query at that time, with start timestamps stored, engine option on/off.
+	type rs struct{ rng, step int64 }
+	var rangeEvals atomic.Int64
+	rsList := []rs{{500, 500}, {500, 1000}, {1000, 1000}, {400, 500}, {1000, 500}, {1500, 500}}
+	type item struct {
+		fn    string
+		x     rs
+		useST bool
+	}
+	var items []item
+	for _, fn := range c30Funcs {
+		for _, x := range rsList {
+			for _, u := range []bool{true, false} {
+				items = append(items, item{fn, x, u})
+			}
+		}
+	}
+	r.ParallelN(int64(len(items)), func(i int64) {
+		it := items[i]
+		eng := engPlain
+		if it.useST {
+			eng = engST
+		}
+		q := fmt.Sprintf("%s(%s[%s])", it.fn, c30Metric, pr_Dur(it.x.rng))
+		const start, end = 1000, 3500
+		rres := pr_QueryRange(eng, stStor, q, start, end, it.x.step, 0)
+		if rres.Err != nil {
+			r.Violation("query-error", fmt.Sprintf("%s range [%d,%d] step %d: %v", q, start, end, it.x.step, rres.Err), c30Replay{Part: "st-range", Fn: it.fn, Query: q, UseST: it.useST, Series: stData[0]})
+			return
+		}
+		for t := int64(start); t <= end; t += it.x.step {
+			ires := pr_QueryInstant(eng, stStor, q, t, 0)
+			if ires.Err != nil {
+				r.Violation("query-error", fmt.Sprintf("%s at %d: %v", q, t, ires.Err), c30Replay{Part: "st-range", Fn: it.fn, Query: q, EvalT: t, UseST: it.useST, Series: stData[0]})
+				return
+			}
+			rangeEvals.Add(1)
+			for k := range stData {
+				id := stData[k].ID
+				var at []pr_Point
+				for _, p := range rres.Series[id] {
+					if p.T == t {
+						at = append(at, p)
+					}
+				}
+				if !pr_SamePoints(at, ires.Series[id]) {
+					r.Violation("st-range-step-differs-from-instant/"+it.fn, fmt.Sprintf("%s over [%d,%d] step %d (engine UseStartTimestamps=%v), series %s: at step time %d the range query gives %s, the instant query %s", q, start, end, it.x.step, it.useST, vx.J(stData[k].Samples), t, pr_PointsString(at), pr_PointsString(ires.Series[id])),
+						c30Replay{Part: "st-range", Fn: it.fn, Query: q, EvalT: t, UseST: it.useST, Win: c30Window{t - it.x.rng, t}, Series: stData[k]})
+					return
+				}
+			}
+		}
+	})
+	r.Count("range_vs_instant_steps_start_timestamp_part", int(rangeEvals.Load()))
 	stStor.Close()
 
 	r.Count("evaluations", int(evals.Load()))
